@@ -126,6 +126,24 @@ fn handle(line: &str) -> Result<String, String> {
             let pos = Position::new(CaretPos::new(n(1), n(2)), CaretPos::new(n(3), n(4)));
             Ok(format!("{}", pos.get_width()))
         }
+        "union" => {
+            let a = Position::new(CaretPos::new(n(1), n(2)), CaretPos::new(n(3), n(4)));
+            let b = Position::new(CaretPos::new(n(5), n(6)), CaretPos::new(n(7), n(8)));
+            let u = a.union(b);
+            Ok(format!("{} {} {} {}", u.start.line, u.start.pos, u.end.line, u.end.pos))
+        }
+        "caret" => {
+            // caret <op> <line> <pos> <arg1> [<arg2>]
+            let c = CaretPos::new(n(2), n(3));
+            let r = match f[1] {
+                "offset_line" => c.offset_line(n(4)),
+                "offset_pos" => c.offset_pos(n(4)),
+                "newline" => c.newline(),
+                "offset" => c.offset(&CaretPos::new(n(4), n(5))),
+                _ => return Err(String::from("unknown caret op")),
+            };
+            Ok(format!("{} {}", r.line, r.pos))
+        }
         "asop" => Ok(format!("{:?}", lx::verif_as_op_or_id(unhex(f[1])))),
         "c2p" => Ok(mamba::check::context::clss::concrete_to_python(&unhex(f[1]))),
         "lexnew" => {
